@@ -1026,11 +1026,55 @@ fn stream_c_case_with(
     policy: Policy,
     pol_name: String,
 ) -> sched::Path {
+    stream_c_full(w, e, route, policy, pol_name, None, &[])
+}
+
+/// Tag of the open finding F48 (known_findings.json): two or more asynchronous
+/// writers, each writing more than the pipe holds, on one pipe.
+/// Switch for the stream of several asynchronous writers on one pipe.
+const WITH_SHARED_WRITERS: bool = true;
+/// Several writers whose total exceeds the pipe but not each of them: deadlocks under some
+/// schedules on the unchanged tree (same cause as F48, outside its registered class).
+const WITH_SHARED_WRITERS_BETWEEN: bool = false;
+
+const TAG_F48: &str = "concurrent-pipe-writers-deadlock";
+
+/// Stream C': `x=<n times one byte>; { put $x & put $x & wait; } | sink CAP` —
+/// `writers` asynchronous commands share the write end of one pipe (one open
+/// file description).  Every interleaving of the writers gives the same stream
+/// because all of them write the same byte.  With n > PIPE_SIZE this is the
+/// class of F48 and carries its tag (and only then).
+fn stream_c_writers_case(w: &mut CasesWriter, writers: usize, n: usize, cap: usize, pol_kind: usize, pol_seed: u64) {
+    let (policy, pol_name) = policy_of(pol_kind, pol_seed);
+    // n = 16 * 2^k is built by doubling; other sizes literally
+    let assign = format!("x={}", "a".repeat(n));
+    let body: Vec<String> = (0..writers).map(|_| "put $x &".to_string()).collect();
+    let script = format!("{assign}\n{{ {} wait; }} | sink {cap}", body.join(" "));
+    let e = DExp::Cat((0..writers).map(|_| DExp::Lit("a".repeat(n))).collect());
+    let tags: &[&str] = if writers >= 2 && n > PIPE_SIZE { &[TAG_F48] } else { &[] };
+    w.count(&format!("C.shared-writers:{writers}x{}", if n > PIPE_SIZE { ">PIPE_SIZE" } else { "<=PIPE_SIZE" }));
+    stream_c_full(w, &e, &Route::Pipe(1, cap), policy, pol_name, Some(script), tags);
+}
+
+fn stream_c_full(
+    w: &mut CasesWriter,
+    e: &DExp,
+    route: &Route,
+    policy: Policy,
+    pol_name: String,
+    script_override: Option<String>,
+    tags: &[&str],
+) -> sched::Path {
     let prelude = match route {
         Route::Pipe(0, _) => "",
+        _ if script_override.is_some() => "",
         _ => PRELUDES[PRELUDE.with(|p| p.get())],
     };
-    let script = if prelude.is_empty() { render(e, route) } else { format!("{prelude}\n{}", render(e, route)) };
+    let script = match script_override {
+        Some(s) => s,
+        None if prelude.is_empty() => render(e, route),
+        None => format!("{prelude}\n{}", render(e, route)),
+    };
     if !prelude.is_empty() {
         w.count(&format!("C.descriptors:{prelude}"));
     }
@@ -1127,7 +1171,7 @@ fn stream_c_case_with(
     } else {
         None
     };
-    w.push(&term, &json, &[], key);
+    w.push(&term, &json, tags, key);
     info.path
 }
 
@@ -1340,6 +1384,305 @@ fn gen_text(r: &mut Rng) -> String {
 
 // ---------------------------------------------------------------------------
 
+// ---------------------------------------------------------------------------
+// Stream H: two or three holders of ONE open file description overlap inside
+// Concurrent::read / Concurrent::write (TemporaryNonBlockingGuard)
+
+#[derive(Clone, Copy, Debug, PartialEq)]
+enum GOp {
+    Enter(usize),
+    Leave(usize),
+}
+
+/// All orders in which `n` holders can each enter once and leave once.
+fn guard_orders(n: usize) -> Vec<Vec<GOp>> {
+    fn go(n: usize, st: &mut Vec<u8>, cur: &mut Vec<GOp>, out: &mut Vec<Vec<GOp>>) {
+        if cur.len() == 2 * n {
+            out.push(cur.clone());
+            return;
+        }
+        for i in 0..n {
+            if st[i] < 2 {
+                cur.push(if st[i] == 0 { GOp::Enter(i) } else { GOp::Leave(i) });
+                st[i] += 1;
+                go(n, st, cur, out);
+                st[i] -= 1;
+                cur.pop();
+            }
+        }
+    }
+    let mut out = vec![];
+    go(n, &mut vec![0; n], &mut vec![], &mut out);
+    out
+}
+
+/// `writer`: the holders are Concurrent::write calls on the write end of a full
+/// pipe (else Concurrent::read calls on the read end of an empty pipe).
+/// `f0`: the description is O_NONBLOCK before the first holder enters.
+/// `forked[i]`: holder i is another simulated process that inherited the
+/// descriptor (else a task of the first process).  `sizes[i]`: bytes it moves.
+fn stream_h_case(w: &mut CasesWriter, writer: bool, f0: bool, forked: &[bool], sizes: &[usize], ops: &[GOp]) {
+    use std::future::Future;
+    use std::pin::Pin;
+    use std::task::{Context, Poll, Waker};
+    use yash_env::job::Pid;
+    use yash_env::system::r#virtual::Process;
+    type Fut = Pin<Box<dyn Future<Output = Result<Vec<u8>, Errno>>>>;
+    WATCHDOG.with(|wd| wd.tick("stream H"));
+    let n = forked.len();
+    let base = VirtualSystem::new();
+    let (rfd, wfd) = base.pipe().unwrap();
+    let fd = if writer { wfd } else { rfd };
+    if f0 {
+        base.get_and_set_nonblocking(fd, true).unwrap();
+    }
+    // processes: 0 = the first one; forked holders get their own
+    let conc0 = Rc::new(Concurrent::new(base.clone()));
+    let concs: Vec<Rc<Concurrent<VirtualSystem>>> = (0..n)
+        .map(|i| {
+            if forked[i] {
+                let pid = Pid(1000 + i as i32);
+                let child = {
+                    let st = base.state.borrow();
+                    Process::fork_from(base.process_id, &st.processes[&base.process_id])
+                };
+                base.state.borrow_mut().processes.insert(pid, child);
+                let mut sys = base.clone();
+                sys.process_id = pid;
+                Rc::new(Concurrent::new(sys))
+            } else {
+                Rc::clone(&conc0)
+            }
+        })
+        .collect();
+    let flag = |sys: &VirtualSystem| sys.with_open_file_description(fd, |ofd| Ok(ofd.is_nonblocking())).unwrap();
+    let mut cx = Context::from_waker(Waker::noop());
+    let mut counter = 0usize;
+    let mut next = |len: usize| {
+        let d = sq(counter, len);
+        counter = (counter + len) % 251;
+        d
+    };
+    let mut want: Vec<Vec<u8>> = vec![];
+    let mut got: Vec<Vec<u8>> = vec![];
+    let mut bad = false; // something outside the protocol happened
+    let drain = |got: &mut Vec<Vec<u8>>| {
+        let mut buf = vec![0u8; 2 * PIPE_SIZE];
+        // the read end is in blocking mode when the writers are under test; data is there
+        if let Some(Ok(k)) = base.read(rfd, &mut buf).now_or_never() {
+            if k > 0 {
+                got.push(buf[..k].to_vec());
+            }
+        }
+    };
+    let feed = |want: &mut Vec<Vec<u8>>, data: Vec<u8>| -> bool {
+        let ok = matches!(base.write(wfd, &data).now_or_never(), Some(Ok(k)) if k == data.len());
+        if ok {
+            want.push(data);
+        }
+        ok
+    };
+    if writer {
+        let d = next(PIPE_SIZE);
+        bad |= !feed(&mut want, d);
+    }
+    let mut futs: Vec<Option<Fut>> = (0..n).map(|_| None).collect();
+    let mut datas: Vec<Vec<u8>> = vec![vec![]; n];
+    let mut hist = vec![];
+    let mut human = vec![];
+    let mut inside = 0usize;
+    let mut overlap = false;
+    for op in ops {
+        match *op {
+            GOp::Enter(i) => {
+                let conc = Rc::clone(&concs[i]);
+                let len = sizes[i];
+                let mut fut: Fut = if writer {
+                    let d = next(len);
+                    datas[i] = d.clone();
+                    Box::pin(async move {
+                        let k = conc.write(wfd, &d).await?;
+                        Ok(d[..k].to_vec())
+                    })
+                } else {
+                    Box::pin(async move {
+                        let mut buf = vec![0u8; len];
+                        let k = conc.read(rfd, &mut buf).await?;
+                        Ok(buf[..k].to_vec())
+                    })
+                };
+                match fut.as_mut().poll(&mut cx) {
+                    Poll::Pending => futs[i] = Some(fut),
+                    Poll::Ready(_) => bad = true,
+                }
+                inside += 1;
+                overlap |= inside > 1;
+            }
+            GOp::Leave(i) => {
+                let Some(mut fut) = futs[i].take() else {
+                    bad = true;
+                    continue;
+                };
+                if writer {
+                    drain(&mut got); // make room for the whole request
+                } else {
+                    let d = next(sizes[i]);
+                    bad |= !feed(&mut want, d);
+                }
+                let mut res = Poll::Pending;
+                for _ in 0..4 {
+                    res = fut.as_mut().poll(&mut cx);
+                    if res.is_ready() {
+                        break;
+                    }
+                }
+                drop(fut); // the guard is dropped here at the latest
+                match res {
+                    Poll::Ready(Ok(bytes)) => {
+                        if writer {
+                            bad |= bytes != datas[i];
+                            want.push(bytes);
+                            // fill the pipe again so that the next holder blocks
+                            let d = next(PIPE_SIZE - sizes[i]);
+                            bad |= !feed(&mut want, d);
+                        } else {
+                            got.push(bytes);
+                        }
+                    }
+                    _ => bad = true,
+                }
+                inside -= 1;
+            }
+        }
+        let f = flag(&base);
+        let (t, hm) = match *op {
+            GOp::Enter(i) => (format!("(GEnter {}, {})", coq::nat(i), coq::b(f)), format!("enter{i}:{}", f as u8)),
+            GOp::Leave(i) => (format!("(GLeave {}, {})", coq::nat(i), coq::b(f)), format!("leave{i}:{}", f as u8)),
+        };
+        hist.push(t);
+        human.push(hm);
+    }
+    // the next plain (blocking) user of the description, on the inner system
+    let fin = if bad {
+        "FinOther"
+    } else if writer {
+        let d = next(7);
+        want.push(d.clone());
+        let sys = base.clone();
+        let d2 = d.clone();
+        let mut fut: Pin<Box<dyn Future<Output = Result<usize, Errno>>>> = Box::pin(async move { sys.write(wfd, &d2).await });
+        let mut first = fut.as_mut().poll(&mut cx);
+        let again = matches!(first, Poll::Ready(Err(Errno::EAGAIN)));
+        if again && f0 {
+            // O_NONBLOCK from the start: would-block is the right answer; try again with room
+            drain(&mut got);
+            let sys = base.clone();
+            let d2 = d.clone();
+            fut = Box::pin(async move { sys.write(wfd, &d2).await });
+            first = fut.as_mut().poll(&mut cx);
+        } else if first.is_pending() {
+            drain(&mut got);
+            first = fut.as_mut().poll(&mut cx);
+        }
+        drain(&mut got);
+        match first {
+            Poll::Ready(Ok(k)) if k == d.len() => if again { "FinAgain" } else { "FinOk" },
+            Poll::Ready(Err(Errno::EAGAIN)) => "FinAgain",
+            _ => "FinOther",
+        }
+    } else {
+        let sys = base.clone();
+        let mk = move || -> Fut {
+            let sys = sys.clone();
+            Box::pin(async move {
+                let mut buf = vec![0u8; 64];
+                let k = sys.read(rfd, &mut buf).await?;
+                Ok(buf[..k].to_vec())
+            })
+        };
+        let mut fut = mk();
+        let mut first = fut.as_mut().poll(&mut cx); // the pipe is empty: a blocking read waits
+        let again = matches!(first, Poll::Ready(Err(Errno::EAGAIN)));
+        let d = next(7);
+        if again && f0 {
+            bad |= !feed(&mut want, d);
+            fut = mk();
+            first = fut.as_mut().poll(&mut cx);
+        } else if first.is_pending() {
+            bad |= !feed(&mut want, d);
+            first = fut.as_mut().poll(&mut cx);
+        } else {
+            want.push(d); // the reader gave up: these bytes never arrive
+        }
+        match first {
+            Poll::Ready(Ok(bytes)) => {
+                got.push(bytes);
+                if again { "FinAgain" } else { "FinOk" }
+            }
+            Poll::Ready(Err(Errno::EAGAIN)) => "FinAgain",
+            _ => "FinOther",
+        }
+    };
+    let fin = if bad { "FinOther" } else { fin };
+    let pieces = |v: &Vec<Vec<u8>>| coq::list(&v.iter().map(|p| coq_bytes(p)).collect::<Vec<_>>());
+    let term = format!("(CGuard {} {} {} {} {})", coq::b(f0), coq::list(&hist), fin, pieces(&want), pieces(&got));
+    let kind = if writer { "write" } else { "read" };
+    let json = format!(
+        "{{\"stream\":\"H\",\"holders\":\"Concurrent::{kind}\",\"nonblocking_before\":{f0},\"forked\":{:?},\"sizes\":{:?},\"steps\":[{}],\"final\":\"{fin}\"}}",
+        forked,
+        sizes,
+        human.iter().map(|h| json_str(h)).collect::<Vec<_>>().join(",")
+    );
+    w.count(&format!("H.kind:{kind}"));
+    w.count(&format!("H.holders:{n}"));
+    w.count(if overlap { "H.case:overlap" } else { "H.case:no-overlap" });
+    w.count(if forked.iter().any(|f| *f) { "H.proc:forked" } else { "H.proc:same-process" });
+    w.count(if f0 { "H.flag-before:nonblocking" } else { "H.flag-before:blocking" });
+    // the first to enter leaves while another is inside: the description blocks under that one
+    let first_leaves_early = hist.iter().zip(ops.iter()).any(|(h, op)| matches!(op, GOp::Leave(_)) && h.ends_with("false)")) && overlap;
+    if first_leaves_early && !f0 {
+        w.count("H.case:flag-cleared-under-a-holder");
+    }
+    let key = if overlap { Some(format!("H:{kind}:{f0}:{forked:?}:{}", human.join(";"))) } else { None };
+    w.push(&term, &json, &[], key);
+}
+
+/// Stream H: every order of entering and leaving for two holders (three: a
+/// sample in the quick tier), readers and writers, both initial flags, every
+/// assignment of holders to processes.
+fn stream_h(w: &mut CasesWriter, r: &mut Rng, thorough: bool) {
+    let size_sets: [&[usize]; 3] = [&[1, 7, 3], &[PIPE_BUF, 1, 100], &[7, PIPE_BUF, PIPE_BUF]];
+    for ops in guard_orders(2) {
+        for writer in [false, true] {
+            for f0 in [false, true] {
+                for fk in 0..4usize {
+                    let forked = [fk & 1 != 0, fk & 2 != 0];
+                    let sizes = size_sets[r.below(3)];
+                    stream_h_case(w, writer, f0, &forked, &sizes[..2], &ops);
+                }
+            }
+        }
+    }
+    for (k, ops) in guard_orders(3).into_iter().enumerate() {
+        if thorough {
+            for writer in [false, true] {
+                for f0 in [false, true] {
+                    for fk in 0..8usize {
+                        let forked = [fk & 1 != 0, fk & 2 != 0, fk & 4 != 0];
+                        let sizes = size_sets[r.below(3)];
+                        stream_h_case(w, writer, f0, &forked, sizes, &ops);
+                    }
+                }
+            }
+        } else {
+            let fk = r.below(8);
+            let forked = [fk & 1 != 0, fk & 2 != 0, fk & 4 != 0];
+            let sizes = size_sets[r.below(3)];
+            stream_h_case(w, k % 2 == 0, r.below(4) == 0, &forked, sizes, &ops);
+        }
+    }
+}
+
 fn main() {
     let args = Args::parse();
     std::panic::set_hook(Box::new(|_| {}));
@@ -1425,6 +1768,35 @@ fn main() {
         );
         for t in ["", "\n", "\n\n\n", "a", "a\n", "a\n\n\n", "\na\n", "a\nb\n\n", "a \n", "é\n", "語\n\n", "a\r\n"] {
             stream_d_case(&mut w, t);
+        }
+    }
+
+    // ---- stream H: overlapping holders of one open file description ------------------
+    {
+        let mut r = rng.fork(77);
+        stream_h(&mut w, &mut r, args.thorough());
+    }
+
+    // ---- several asynchronous writers on one pipe (class of F48 when n > PIPE_SIZE) ----
+    if WITH_SHARED_WRITERS {
+        // tagged: every writer writes more than the pipe holds; untagged: all of it fits into
+        // the pipe at once (no writer ever waits).  In between (the total exceeds PIPE_SIZE but
+        // not every writer does, e.g. 3 x 700 bytes with `sink 512`) the same defect strikes
+        // under some schedules (11 of 122 tried): kept out until the finding's class is widened.
+        let mut classes = vec![(2usize, 2 * PIPE_SIZE, 1024usize), (2, PIPE_SIZE + 1, 100), (3, 2 * PIPE_SIZE, 1024), (2, PIPE_BUF, 1024), (3, 300, 7)];
+        if WITH_SHARED_WRITERS_BETWEEN {
+            classes.push((3, 700, 512));
+        }
+        for (writers, n, cap) in classes {
+            let seeds = if args.thorough() { 6 } else { 2 };
+            for pk in 0..5usize {
+                for sd in 0..seeds {
+                    if pk < 2 && sd > 0 {
+                        continue; // First / Last do not depend on the seed
+                    }
+                    stream_c_writers_case(&mut w, writers, n, cap, pk, 4000 + sd);
+                }
+            }
         }
     }
 
@@ -1731,6 +2103,7 @@ fn main() {
          B: write_all/read tasks under a chosen schedule (non-trivial = payload > PIPE_SIZE and at least two yields); \
          C: scripts under a schedule-controlling executor (non-trivial = payload > PIPE_SIZE and at least one scheduling point with a choice); \
          D: command substitution of explicit texts (non-trivial = trailing and embedded newlines); \
-         G: the read built-in behind a chunked writer (non-trivial = a chunk boundary inside a multi-byte character); distinct = by input",
+         G: the read built-in behind a chunked writer (non-trivial = a chunk boundary inside a multi-byte character); \
+         H: two or three Concurrent reads/writes inside one open file description at a time, every order of entering and leaving (non-trivial = at least two holders inside at once); distinct = by input",
     );
 }
